@@ -25,6 +25,9 @@ def gen_cases(ctx):
 def run(ctx):
     if not srv.prepare(ctx):
         return
+    if ctx.replay and 'stream_cases' in ctx.replay:
+        srv.replay_streams(ctx)
+        return
     if ctx.replay and 'cases' in ctx.replay:
         cases = [srv.case_from_json(c) for c in ctx.replay['cases']]
     else:
@@ -57,6 +60,17 @@ def run(ctx):
         calls['sessions-with-calls'] += bool(log)
         calls['handler-calls:read-runs'] += sum(1 for e in log if e[:2] in ('rc', 'rd', 'rh', 'ri'))
         calls['handler-calls:write-single'] += sum(1 for e in log if e[:3] in ('wsc', 'wsr'))
+    if not ctx.replay:
+        r = ctx.rng
+        n = 240 if ctx.quick() else 2400
+        sc = [srv.gen_stream_case(r, 'tcp' if r.random() < 0.65 else 'rtu', auth=(srv.gen_auth(r) if r.random() < 0.2 else None)) for _ in range(n)]
+        srv.stream_pass(ctx, sc, 'calls', 'correspondence:byte-stream-delivery:handler-calls', 'handler-calls.byte-stream')
+        ro = [srv.gen_reopen_case(r) for _ in range(n)]
+        srv.stream_pass(ctx, ro, 'calls', 'correspondence:rtu-port-reopen:handler-calls', 'handler-calls.rtu-reopen', reopen=True)
+        calls['byte-streams'] = n
+        calls['byte-streams:above-260-bytes'] = sum(1 for _, s in sc if sum(len(x) // 2 for x in s if not x.startswith('@')) > 260)
+        calls['rtu-reopen-runs'] = n
+        calls['rtu-reopen-runs:with-crc-error'] = sum(1 for c, s in ro if len([x for x in s if not x.startswith('@')]) > len(c[3]))
     cl = srv.coverage(ctx, cases, impl,
                       'sessions as in C01 (corpus, boundary quantities, mixed structured/malformed sessions), 40% with an authorization handler; '
                       'observable = ordered handler call log; non-trivial = contains at least one valid request; distinct by value', calls)
